@@ -29,7 +29,10 @@ EXPLANATION = (
     "indices). R14d: exponents (lowered one by one, recursion until none is left, exponents < 1 refused; derivative "
     "e x^(e-1) with the base re-inserted). R14e: several occurrences (sorted block-key tuples, product rule), several "
     "terms (accumulation per key), terms without the tensor under ('none',), spin block keys, input guards, "
-    "assumptions preserved, the input expression unchanged, no mutable Expr shared between keys. R08g: the index "
+    "assumptions preserved, the input expression unchanged, no mutable Expr shared between keys. R14f: call history: "
+    "derivative / remove_tensor evaluated on input B after input A on one path with shared module-level state "
+    "(Symex.run_sequence; A, B differing in target indices, tensor name, spin, bra-ket symmetry, tensor class, exponent, "
+    "provided target indices, ADC name) give for both calls exactly the results of the single calls. R08g: the index "
     "primitives the model takes for granted are themselves evaluated from the library source: minimize_tensor_indices on "
     "all index tuples of length <= 3 (targets stay, lowest unused non-target names in order of first appearance, the "
     "returned transpositions reproduce the result), get_lowest_avail_indices on a table of requests, Container.permute "
@@ -751,6 +754,98 @@ def r08g(ctx):
     ctx.floor(rule, "requests for lowest available names", m, 60)
 
 
+# ---------------------------------------------------------------------------
+# R14f: call history
+
+def history_inputs(fnref):
+    """Inputs that differ in what a result may (wrongly) be remembered by: target indices, tensor name, spin, bra-ket
+    symmetry, tensor class, exponent, provided target indices."""
+    AM = "Amplitude"
+    q = Fraction(1, 4)
+    H = [
+        Sc("targets i a", "R14f", "z_ia V^jk_bc w_bcjk (target indices i, a)", num(q) * N("z", "ia") * A("V", "jk", "bc") * N("w", "bcjk"), "V"),
+        Sc("scalar", "R14f", "V^ij_ab w_abij (no target indices)", num(q) * A("V", "ij", "ab") * N("w", "abij"), "V"),
+        Sc("targets j", "R14f", "V^ik_ab w_abikj (target index j)", A("V", "ik", "ab") * N("w", "abikj"), "V"),
+        Sc("spin", "R14f", "spin-labelled V", A("V", "ij", "ab", 0, sp="abab") * N("w", "abij", "abab"), "V"),
+        Sc("other name", "R14f", "the tensor d next to V", A("V", "ij", "ab") * A("d", "kl", "cd") * N("w", "abijcdkl"), "d"),
+        Sc("bra-ket", "R14f", "V with bra-ket symmetry", A("V", "ij", "kl", 1) * N("w", "ijkl"), "V"),
+        Sc("amplitude", "R14f", "V as Amplitude", A("V", "ab", "ij", 0, AM) * N("w", "ijab"), "V"),
+        Sc("provided", "R14f", "explicit target indices i, a", A("V", "jk", "bc") * N("w", "bcjkia"), "V", target="ia"),
+        Sc("square", "R14f", "V^2", num(3) * A("V", "ij", "ab") ** 2, "V"),
+        Sc("two terms", "R14f", "two terms with different target names", A("V", "jk", "bc") * N("w", "bcjk") + A("V", "ij", "ac") * N("u", "acij"), "V"),
+    ]
+    if fnref == RM:
+        H.append(Sc("adc", "R14f", "ADC amplitude Y", A("Y", "ab", "ij", 0, AM) * N("w", "ijab"), "Y"))
+        H.append(Sc("adc name V", "R14f", "the same amplitude under the ADC name", A("V", "ab", "ij", 0, AM) * N("w", "ijab"), "V", adc=("V",)))
+    return H
+
+
+def _result(kind, val):
+    """Comparable image of one call's outcome."""
+    if kind != "return":
+        return (kind, val)
+    if not isinstance(val, dict):
+        return ("return", repr(val))
+    out = {}
+    for k, v in val.items():
+        if tmodel.kind(v) == "expr":
+            a = v.attrs["assume"]
+            tg = None if a["target_idx"] is None else tuple(r.attrs["_ix"] for r in a["target_idx"])
+            out[k] = (v.attrs["val"], tg, a.get("sym_tensors"), a.get("real"))
+        else:
+            out[k] = repr(v)
+    return ("return", out)
+
+
+def _show_result(r, n=300):
+    if r[0] != "return" or not isinstance(r[1], dict):
+        return f"{r[0]} {r[1]}"
+    return _show("{" + ", ".join(f"{k}: {v[0] if isinstance(v, tuple) else v}" for k, v in sorted(r[1].items(), key=repr)) + "}", n)
+
+
+def check_history(ctx):
+    rule = "R14f"
+    for fnref, pname in ((DV, "t_string"), (RM, "t_name")):
+        fn = ctx.model.fn(fnref)
+        label = fnref.split(":")[1]
+        H = history_inputs(fnref)
+        if ctx.tier == "quick":
+            pairs = [(a, b) for a in H[:6] for b in H[:6]] + [(H[0], b) for b in H[6:]] + [(a, H[1]) for a in H[6:]]
+        else:
+            pairs = [(a, b) for a in H for b in H]
+
+        def args(w, sc):
+            return {"expr": w.expr(sc.expr, _assume(w, sc)), pname: sc.t}
+        alone = {}
+        for sc in H:
+            kind, val, w = _evaluate(ctx, fnref, sc, lambda w, sc=sc: args(w, sc))
+            alone[sc.id] = _result(kind, val)
+        n = 0
+        for a, b in pairs:
+            # the ADC names are a property of the process (tensor_names), not of the call
+            if tuple(a.adc) != tuple(b.adc):
+                continue
+            w = tmodel.World(adc_names=b.adc, minimize_mode=b.mode)
+            sx = tmodel.Binding(w).make(ctx.model, f"{label} [{a.id} ; {b.id}]", max_depth=24)
+            try:
+                outs = sx.run_sequence([fnref, fnref], lambda: [args(w, a), args(w, b)])
+            except AnalysisError as e:
+                if any(x in str(e) for x in ("depth exceeded", "recursion bound", "step bound", "loop bound")):
+                    ctx.bad(rule, fn, f"{label} on {b.what} after {a.what} does not terminate: {e}", key=f"{label} history {a.id} ; {b.id}")
+                    continue
+                raise
+            if len(outs) != 1 or outs[0].kind != "return":
+                raise AnalysisError(f"C14 history [{a.id} ; {b.id}]: {outs[:3]}")
+            n += 1
+            first, second = [_result(k, v) for k, v in outs[0].value]
+            ok = second == alone[b.id] and first == alone[a.id]
+            ctx.check(rule, fn, ok, f"{label}: [{b.what}] after [{a.what}] = [{b.what}] alone",
+                      f"{label} on {b.what} ({_show(b.expr, 100)}, w.r.t. {b.t}) gives {_show_result(second)} when it is evaluated after "
+                      f"{label} on {a.what} ({_show(a.expr, 100)}, w.r.t. {a.t}) in the same process, but {_show_result(alone[b.id])} on its "
+                      f"own: the result depends on the call history (module-level state)", key=f"{label} history {a.id} ; {b.id}")
+        ctx.floor(rule, f"call histories of {label}", n, 40)
+
+
 def permute_model(ctx):
     """Container.permute evaluated from source: the substitution handed to ``subs`` is the composition of the
     transpositions in the given order (what the model's ``permute`` implements)."""
@@ -855,6 +950,8 @@ def run(ctx):
     if any(ctx.want(r) for r in ("R14a", "R14b", "R14c", "R14d", "R14e")):
         check_remove(ctx)
         check_derivative(ctx)
+    if ctx.want("R14f"):
+        check_history(ctx)
     if ctx.want("R08g"):
         r08g(ctx)
         permute_model(ctx)
